@@ -10,9 +10,12 @@ Model/RunBase.vos Model/RunBase.vok Model/RunBase.required_vos: Model/RunBase.v 
 Model/Run.vo Model/Run.glob Model/Run.v.beautified Model/Run.required_vo: Model/Run.v Base/Bytes.vo Model/Resp.vo Model/RunBase.vo
 Model/Run.vio: Model/Run.v Base/Bytes.vio Model/Resp.vio Model/RunBase.vio
 Model/Run.vos Model/Run.vok Model/Run.required_vos: Model/Run.v Base/Bytes.vos Model/Resp.vos Model/RunBase.vos
-Proofs/RespFacts.vo Proofs/RespFacts.glob Proofs/RespFacts.v.beautified Proofs/RespFacts.required_vo: Proofs/RespFacts.v Base/Bytes.vo Model/Resp.vo
-Proofs/RespFacts.vio: Proofs/RespFacts.v Base/Bytes.vio Model/Resp.vio
-Proofs/RespFacts.vos Proofs/RespFacts.vok Proofs/RespFacts.required_vos: Proofs/RespFacts.v Base/Bytes.vos Model/Resp.vos
-Props/C20.vo Props/C20.glob Props/C20.v.beautified Props/C20.required_vo: Props/C20.v Base/Bytes.vo Model/Resp.vo Proofs/RespFacts.vo
-Props/C20.vio: Props/C20.v Base/Bytes.vio Model/Resp.vio Proofs/RespFacts.vio
-Props/C20.vos Props/C20.vok Props/C20.required_vos: Props/C20.v Base/Bytes.vos Model/Resp.vos Proofs/RespFacts.vos
+Proofs/BytesFacts.vo Proofs/BytesFacts.glob Proofs/BytesFacts.v.beautified Proofs/BytesFacts.required_vo: Proofs/BytesFacts.v Base/Bytes.vo
+Proofs/BytesFacts.vio: Proofs/BytesFacts.v Base/Bytes.vio
+Proofs/BytesFacts.vos Proofs/BytesFacts.vok Proofs/BytesFacts.required_vos: Proofs/BytesFacts.v Base/Bytes.vos
+Proofs/RespFacts.vo Proofs/RespFacts.glob Proofs/RespFacts.v.beautified Proofs/RespFacts.required_vo: Proofs/RespFacts.v Base/Bytes.vo Model/Resp.vo Proofs/BytesFacts.vo
+Proofs/RespFacts.vio: Proofs/RespFacts.v Base/Bytes.vio Model/Resp.vio Proofs/BytesFacts.vio
+Proofs/RespFacts.vos Proofs/RespFacts.vok Proofs/RespFacts.required_vos: Proofs/RespFacts.v Base/Bytes.vos Model/Resp.vos Proofs/BytesFacts.vos
+Props/C20.vo Props/C20.glob Props/C20.v.beautified Props/C20.required_vo: Props/C20.v Base/Bytes.vo Model/Resp.vo Proofs/BytesFacts.vo Proofs/RespFacts.vo
+Props/C20.vio: Props/C20.v Base/Bytes.vio Model/Resp.vio Proofs/BytesFacts.vio Proofs/RespFacts.vio
+Props/C20.vos Props/C20.vok Props/C20.required_vos: Props/C20.v Base/Bytes.vos Model/Resp.vos Proofs/BytesFacts.vos Proofs/RespFacts.vos
